@@ -55,6 +55,9 @@ pub fn detect_cpu_features() -> SimdMode {
 }
 
 /// SIMD-optimized filter operation
+///
+/// Delegates to Arrow's filter kernel (already vectorized), which keeps NULL
+/// elements that pass the predicate — a hand-rolled value loop dropped them.
 pub fn filter_simd(array: &dyn Array, predicate: &[bool]) -> Result<ArrayRef> {
     if array.len() != predicate.len() {
         return Err(QueryError::Execution(format!(
@@ -63,54 +66,11 @@ pub fn filter_simd(array: &dyn Array, predicate: &[bool]) -> Result<ArrayRef> {
             predicate.len()
         )));
     }
-
-    // For simplicity, just use standard Arrow filtering
-    // A full implementation would use SIMD intrinsics here
     match array.data_type() {
-        DataType::Int64 => {
-            let int_array = array
-                .as_any()
-                .downcast_ref::<Int64Array>()
-                .ok_or_else(|| QueryError::Execution("Failed to downcast array".to_string()))?;
-
-            let mut values = Vec::new();
-            for (i, &valid) in predicate.iter().enumerate() {
-                if valid && !int_array.is_null(i) {
-                    values.push(int_array.value(i));
-                }
-            }
-
-            Ok(Arc::new(Int64Array::from(values)))
-        }
-        DataType::Float64 => {
-            let float_array = array
-                .as_any()
-                .downcast_ref::<Float64Array>()
-                .ok_or_else(|| QueryError::Execution("Failed to downcast array".to_string()))?;
-
-            let mut values = Vec::new();
-            for (i, &valid) in predicate.iter().enumerate() {
-                if valid && !float_array.is_null(i) {
-                    values.push(float_array.value(i));
-                }
-            }
-
-            Ok(Arc::new(Float64Array::from(values)))
-        }
-        DataType::Boolean => {
-            let bool_array = array
-                .as_any()
-                .downcast_ref::<BooleanArray>()
-                .ok_or_else(|| QueryError::Execution("Failed to downcast array".to_string()))?;
-
-            let mut values = Vec::new();
-            for (i, &valid) in predicate.iter().enumerate() {
-                if valid && !bool_array.is_null(i) {
-                    values.push(bool_array.value(i));
-                }
-            }
-
-            Ok(Arc::new(BooleanArray::from(values)))
+        DataType::Int64 | DataType::Float64 | DataType::Boolean => {
+            let mask = BooleanArray::from(predicate.to_vec());
+            arrow::compute::filter(array, &mask)
+                .map_err(|e| QueryError::Execution(format!("filter failed: {e}")))
         }
         _ => Err(QueryError::Execution(format!(
             "Unsupported data type for SIMD filter: {:?}",
@@ -120,6 +80,9 @@ pub fn filter_simd(array: &dyn Array, predicate: &[bool]) -> Result<ArrayRef> {
 }
 
 /// SIMD-optimized comparison operation
+///
+/// Delegates to Arrow's comparison kernels, so a NULL operand yields NULL
+/// (the previous loops compared the bytes under NULL slots).
 pub fn compare_simd(left: &dyn Array, right: &dyn Array, op: CompareOp) -> Result<BooleanArray> {
     if left.len() != right.len() {
         return Err(QueryError::Execution(format!(
@@ -128,15 +91,26 @@ pub fn compare_simd(left: &dyn Array, right: &dyn Array, op: CompareOp) -> Resul
             right.len()
         )));
     }
-
-    match op {
-        CompareOp::Eq => compare_eq(left, right),
-        CompareOp::Ne => compare_ne(left, right),
-        CompareOp::Lt => compare_lt(left, right),
-        CompareOp::Le => compare_le(left, right),
-        CompareOp::Gt => compare_gt(left, right),
-        CompareOp::Ge => compare_ge(left, right),
+    if left.data_type() != right.data_type()
+        || !matches!(left.data_type(), DataType::Int64 | DataType::Float64)
+    {
+        return Err(QueryError::Execution(format!(
+            "Unsupported type for comparison: {:?} vs {:?}",
+            left.data_type(),
+            right.data_type()
+        )));
     }
+    use arrow::compute::kernels::cmp;
+    let (l, r): (&dyn arrow::array::Datum, &dyn arrow::array::Datum) = (&left, &right);
+    let out = match op {
+        CompareOp::Eq => cmp::eq(l, r),
+        CompareOp::Ne => cmp::neq(l, r),
+        CompareOp::Lt => cmp::lt(l, r),
+        CompareOp::Le => cmp::lt_eq(l, r),
+        CompareOp::Gt => cmp::gt(l, r),
+        CompareOp::Ge => cmp::gt_eq(l, r),
+    };
+    out.map_err(|e| QueryError::Execution(format!("comparison failed: {e}")))
 }
 
 /// Comparison operation type
@@ -150,239 +124,56 @@ pub enum CompareOp {
     Ge,
 }
 
-fn compare_eq(left: &dyn Array, right: &dyn Array) -> Result<BooleanArray> {
-    match left.data_type() {
-        DataType::Int64 => {
-            let left_arr = left
-                .as_any()
-                .downcast_ref::<Int64Array>()
-                .ok_or_else(|| QueryError::Execution("Failed to downcast left".to_string()))?;
-            let right_arr = right
-                .as_any()
-                .downcast_ref::<Int64Array>()
-                .ok_or_else(|| QueryError::Execution("Failed to downcast right".to_string()))?;
-
-            let mut values = vec![false; left.len()];
-            for i in 0..left.len() {
-                values[i] = left_arr.value(i) == right_arr.value(i);
-            }
-
-            Ok(BooleanArray::from(values))
-        }
-        DataType::Float64 => {
-            let left_arr = left
-                .as_any()
-                .downcast_ref::<Float64Array>()
-                .ok_or_else(|| QueryError::Execution("Failed to downcast left".to_string()))?;
-            let right_arr = right
-                .as_any()
-                .downcast_ref::<Float64Array>()
-                .ok_or_else(|| QueryError::Execution("Failed to downcast right".to_string()))?;
-
-            let mut values = vec![false; left.len()];
-            for i in 0..left.len() {
-                values[i] = left_arr.value(i) == right_arr.value(i);
-            }
-
-            Ok(BooleanArray::from(values))
-        }
-        _ => Err(QueryError::Execution(format!(
-            "Unsupported type for EQ comparison: {:?}",
+fn binary_numeric(
+    left: &dyn Array,
+    right: &dyn Array,
+    what: &str,
+    f: fn(&dyn arrow::array::Datum, &dyn arrow::array::Datum) -> std::result::Result<ArrayRef, arrow::error::ArrowError>,
+) -> Result<ArrayRef> {
+    if left.len() != right.len() {
+        return Err(QueryError::Execution(format!(
+            "Left length {} != right length {}",
+            left.len(),
+            right.len()
+        )));
+    }
+    if left.data_type() != right.data_type()
+        || !matches!(left.data_type(), DataType::Int64 | DataType::Float64)
+    {
+        return Err(QueryError::Execution(format!(
+            "Unsupported type for {what}: {:?}",
             left.data_type()
-        ))),
+        )));
     }
+    f(&left, &right).map_err(|e| QueryError::Execution(format!("{what} failed: {e}")))
 }
 
-fn compare_ne(left: &dyn Array, right: &dyn Array) -> Result<BooleanArray> {
-    let eq_result = compare_eq(left, right)?;
-    let mut values = vec![false; left.len()];
-    for i in 0..left.len() {
-        values[i] = !eq_result.value(i);
-    }
-    Ok(BooleanArray::from(values))
-}
-
-fn compare_lt(left: &dyn Array, right: &dyn Array) -> Result<BooleanArray> {
-    match left.data_type() {
-        DataType::Int64 => {
-            let left_arr = left
-                .as_any()
-                .downcast_ref::<Int64Array>()
-                .ok_or_else(|| QueryError::Execution("Failed to downcast left".to_string()))?;
-            let right_arr = right
-                .as_any()
-                .downcast_ref::<Int64Array>()
-                .ok_or_else(|| QueryError::Execution("Failed to downcast right".to_string()))?;
-
-            let mut values = vec![false; left.len()];
-            for i in 0..left.len() {
-                values[i] = left_arr.value(i) < right_arr.value(i);
-            }
-
-            Ok(BooleanArray::from(values))
-        }
-        DataType::Float64 => {
-            let left_arr = left
-                .as_any()
-                .downcast_ref::<Float64Array>()
-                .ok_or_else(|| QueryError::Execution("Failed to downcast left".to_string()))?;
-            let right_arr = right
-                .as_any()
-                .downcast_ref::<Float64Array>()
-                .ok_or_else(|| QueryError::Execution("Failed to downcast right".to_string()))?;
-
-            let mut values = vec![false; left.len()];
-            for i in 0..left.len() {
-                values[i] = left_arr.value(i) < right_arr.value(i);
-            }
-
-            Ok(BooleanArray::from(values))
-        }
-        _ => Err(QueryError::Execution(format!(
-            "Unsupported type for LT comparison: {:?}",
-            left.data_type()
-        ))),
-    }
-}
-
-fn compare_le(left: &dyn Array, right: &dyn Array) -> Result<BooleanArray> {
-    let lt_result = compare_lt(left, right)?;
-    let eq_result = compare_eq(left, right)?;
-    let mut values = vec![false; left.len()];
-    for i in 0..left.len() {
-        values[i] = lt_result.value(i) || eq_result.value(i);
-    }
-    Ok(BooleanArray::from(values))
-}
-
-fn compare_gt(left: &dyn Array, right: &dyn Array) -> Result<BooleanArray> {
-    compare_lt(right, left)
-}
-
-fn compare_ge(left: &dyn Array, right: &dyn Array) -> Result<BooleanArray> {
-    compare_le(right, left)
-}
-
-/// SIMD-optimized add operation
+/// Element-wise addition (wrapping on integer overflow); NULL in, NULL out.
 pub fn add_simd(left: &dyn Array, right: &dyn Array) -> Result<ArrayRef> {
-    match left.data_type() {
-        DataType::Int64 => {
-            let left_arr = left
-                .as_any()
-                .downcast_ref::<Int64Array>()
-                .ok_or_else(|| QueryError::Execution("Failed to downcast left".to_string()))?;
-            let right_arr = right
-                .as_any()
-                .downcast_ref::<Int64Array>()
-                .ok_or_else(|| QueryError::Execution("Failed to downcast right".to_string()))?;
-
-            let mut values = Vec::with_capacity(left.len());
-            for i in 0..left.len() {
-                values.push(left_arr.value(i) + right_arr.value(i));
-            }
-
-            Ok(Arc::new(Int64Array::from(values)))
-        }
-        DataType::Float64 => {
-            let left_arr = left
-                .as_any()
-                .downcast_ref::<Float64Array>()
-                .ok_or_else(|| QueryError::Execution("Failed to downcast left".to_string()))?;
-            let right_arr = right
-                .as_any()
-                .downcast_ref::<Float64Array>()
-                .ok_or_else(|| QueryError::Execution("Failed to downcast right".to_string()))?;
-
-            let mut values = Vec::with_capacity(left.len());
-            for i in 0..left.len() {
-                values.push(left_arr.value(i) + right_arr.value(i));
-            }
-
-            Ok(Arc::new(Float64Array::from(values)))
-        }
-        _ => Err(QueryError::Execution(format!(
-            "Unsupported type for add: {:?}",
-            left.data_type()
-        ))),
-    }
+    binary_numeric(left, right, "add", arrow::compute::kernels::numeric::add_wrapping)
 }
 
-/// SIMD-optimized multiply operation
+/// Element-wise multiplication (wrapping on integer overflow); NULL in, NULL out.
 pub fn multiply_simd(left: &dyn Array, right: &dyn Array) -> Result<ArrayRef> {
-    match left.data_type() {
-        DataType::Int64 => {
-            let left_arr = left
-                .as_any()
-                .downcast_ref::<Int64Array>()
-                .ok_or_else(|| QueryError::Execution("Failed to downcast left".to_string()))?;
-            let right_arr = right
-                .as_any()
-                .downcast_ref::<Int64Array>()
-                .ok_or_else(|| QueryError::Execution("Failed to downcast right".to_string()))?;
-
-            let mut values = Vec::with_capacity(left.len());
-            for i in 0..left.len() {
-                values.push(left_arr.value(i) * right_arr.value(i));
-            }
-
-            Ok(Arc::new(Int64Array::from(values)))
-        }
-        DataType::Float64 => {
-            let left_arr = left
-                .as_any()
-                .downcast_ref::<Float64Array>()
-                .ok_or_else(|| QueryError::Execution("Failed to downcast left".to_string()))?;
-            let right_arr = right
-                .as_any()
-                .downcast_ref::<Float64Array>()
-                .ok_or_else(|| QueryError::Execution("Failed to downcast right".to_string()))?;
-
-            let mut values = Vec::with_capacity(left.len());
-            for i in 0..left.len() {
-                values.push(left_arr.value(i) * right_arr.value(i));
-            }
-
-            Ok(Arc::new(Float64Array::from(values)))
-        }
-        _ => Err(QueryError::Execution(format!(
-            "Unsupported type for multiply: {:?}",
-            left.data_type()
-        ))),
-    }
+    binary_numeric(left, right, "multiply", arrow::compute::kernels::numeric::mul_wrapping)
 }
 
-/// SIMD-optimized sum operation
+/// Sum of the non-NULL elements; `None` inside the scalar when there are none.
 pub fn sum_simd(array: &dyn Array) -> Result<ScalarValue> {
     match array.data_type() {
         DataType::Int64 => {
-            let int_array = array
+            let a = array
                 .as_any()
                 .downcast_ref::<Int64Array>()
                 .ok_or_else(|| QueryError::Execution("Failed to downcast array".to_string()))?;
-
-            let mut sum = 0i64;
-            for i in 0..array.len() {
-                if !array.is_null(i) {
-                    sum += int_array.value(i);
-                }
-            }
-
-            Ok(ScalarValue::Int64(Some(sum)))
+            Ok(ScalarValue::Int64(arrow::compute::sum(a)))
         }
         DataType::Float64 => {
-            let float_array = array
+            let a = array
                 .as_any()
                 .downcast_ref::<Float64Array>()
                 .ok_or_else(|| QueryError::Execution("Failed to downcast array".to_string()))?;
-
-            let mut sum = 0.0f64;
-            for i in 0..array.len() {
-                if !array.is_null(i) {
-                    sum += float_array.value(i);
-                }
-            }
-
-            Ok(ScalarValue::Float64(Some(sum)))
+            Ok(ScalarValue::Float64(arrow::compute::sum(a)))
         }
         _ => Err(QueryError::Execution(format!(
             "Unsupported type for sum: {:?}",
@@ -391,18 +182,11 @@ pub fn sum_simd(array: &dyn Array) -> Result<ScalarValue> {
     }
 }
 
-/// SIMD-optimized count operation
+/// Number of non-NULL elements.
 pub fn count_simd(array: &dyn Array) -> Result<i64> {
-    let mut count = 0i64;
-    for i in 0..array.len() {
-        if !array.is_null(i) {
-            count += 1;
-        }
-    }
-    Ok(count)
+    Ok((array.len() - array.null_count()) as i64)
 }
 
-/// Scalar value for aggregate results
 #[derive(Debug, Clone)]
 pub enum ScalarValue {
     Null,
